@@ -124,10 +124,21 @@ while len(meta) < want and tries < 40 * want:
     spell = {"stress": str(rng.choice(["stress", "stress", "Stress", "STRESS"])),
              "displacement": str(rng.choice(["displacement", "displacement", "Displacement", "DISPLACEMENT"]))}
     chk.count(unit_spelling="lower-case" if (spell["stress"], spell["displacement"]) == ("stress", "displacement") else "capitalised")
+    # the library-wide precision settings (arim.settings.FLOAT / COMPLEX) at non-default values while the terms of a
+    # double-precision geometry are evaluated: the same terms
+    import arim.settings as _st
+    _keep = (_st.FLOAT, _st.COMPLEX)
+    low_settings = tries % 9 == 4
+    if low_settings:
+        _st.FLOAT, _st.COMPLEX = np.float32, np.complex64
+    chk.count(precision_settings="FLOAT=float32 COMPLEX=complex64" if low_settings else "default")
     for unit in ("stress", "displacement"):
         impl[("fwd", unit)] = complex(model.transmission_reflection_for_path(path, rg, unit=spell[unit])[0, 0])
         impl[("rev", unit)] = complex(model.reverse_transmission_reflection_for_path(path, rg, unit=spell[unit])[0, 0])
         impl[("fwd_of_reversed", unit)] = complex(model.transmission_reflection_for_path(rpath, rrg, unit=spell[unit])[0, 0])
+        # ... and the same statement for the path written the other way round (target -> walls -> front wall -> couplant -> probe:
+        # its transmission is NOT at its first interface): its receive-side term is the transmit-side term of ITS reversed path
+        impl[("rev_of_reversed", unit)] = complex(model.reverse_transmission_reflection_for_path(rpath, rrg, unit=spell[unit])[0, 0])
     # the non-default real-arithmetic option (force_complex=False): where a refracted wave is evanescent both sides are
     # undefined (NaN) together; everywhere else they agree as above
     with np.errstate(all="ignore"), warnings.catch_warnings():
@@ -148,6 +159,7 @@ while len(meta) < want and tries < 40 * want:
     impl["att"] = float(np.asarray(model.material_attenuation_for_path(path, rg, freq_arg)).reshape(-1)[0])
     impl["att_of_reversed"] = float(np.asarray(model.material_attenuation_for_path(rpath, rrg, freq_arg)).reshape(-1)[0])
     impl["freq_after"] = float(np.asarray(freq_arg).reshape(-1)[0])
+    _st.FLOAT, _st.COMPLEX = _keep
     # model input from the analytic geometry (independent of RayGeometry)
     n = geom["nlegs"] - 1
     toks = ["P"] + [fhex(geom[k]) for k in ("rho_f", "c_f", "rho_s", "c_l", "c_t")] + [str(n)]
@@ -197,6 +209,11 @@ for m, o in zip(meta, outs):
             spec_ok = False
             chk.violation(f"transrefl:{unit}", f"reverse transmission-reflection product ({unit}) differs from the direct "
                           "product on the reversed path", dict(m, unit=unit, impl={str(k): v for k, v in impl.items()}))
+        if not close(impl[("rev_of_reversed", unit)], impl[("fwd", unit)], TOL, ATOL):
+            spec_ok = False
+            chk.violation(f"transrefl-backwards:{unit}", f"for the path written from the target to the probe, the reverse transmission-reflection "
+                          f"product ({unit}) differs from the direct product on its reversed path (the original path)",
+                          dict(m, unit=unit, impl={str(k): v for k, v in impl.items()}))
     if m.get("normal_family"):
         # a ray along the normals of all its walls: every term is defined (finite) in both directions
         undefined_ = [str(k) for k, v in impl.items() if isinstance(v, (float, complex)) and v != v]
